@@ -138,6 +138,9 @@ type Trans struct {
 	rangeIntBound map[*MVar]string
 	noFrame bool
 	freshRefs map[string]bool
+	knownNew  map[string]bool
+	lastCallScope *Scope
+	knownOld  map[string]bool
 	curBinds []*Val
 }
 
@@ -192,6 +195,14 @@ func (tr *Trans) sortOf(t types.Type) SortInfo { return tr.eng.sorts.sortOf(t) }
 // sel reads heap component comp at ref. Objects that existed before the current API call began
 // (ref <= epoch) live in an immutable "old" heap; newer objects in the mutable component variable.
 func (tr *Trans) sel(comp, sort, ref string) string {
+	if tr.freshRefs[ref] || tr.knownNew[ref] {
+		v := tr.il.mvar(comp, sort)
+		v.Comp = comp
+		return fmt.Sprintf("(select %s %s)", cur(v), ref)
+	}
+	if tr.knownOld[ref] {
+		return fmt.Sprintf("(select %s %s)", heapOldName(tr.il, comp, sort), ref)
+	}
 	return heapSel(tr.il, comp, sort, ref, false, nil)
 }
 
@@ -399,7 +410,12 @@ func (tr *Trans) expr(v *Val) string {
 		return v.E
 	case VAddr:
 		return tr.materialize(v.Addr)
-	case VClosure, VFunc, VIterSeq, VRange:
+	case VClosure:
+		if v.Fn != nil {
+			tr.eng.opaqueUse[v.Fn] = true // the closure escapes as a value
+		}
+		return "0"
+	case VFunc, VIterSeq, VRange:
 		return "0"
 	case VTuple:
 		return "0"
@@ -594,6 +610,7 @@ func (tr *Trans) newFrame(fn *ssa.Function, parent *Frame) *Frame {
 	}
 	for _, b := range fn.Blocks {
 		fr.blocks[b] = tr.il.newBlock(fmt.Sprintf("%s%s.%d(%s)", fr.prefix, fn.Name(), b.Index, b.Comment))
+		fr.blocks[b].Owner = fr
 	}
 	tr.computeEscapes(fr)
 	return fr
